@@ -13,9 +13,13 @@ func VInstrWF(i Instruction) bool {
 		return false
 	}
 	switch i.Opcode() {
-	case Opcode_AddMempointer, Opcode_Jump, Opcode_JumpIfFalse, Opcode_GetVarImm, Opcode_SetVarImm:
+	case Opcode_AddMempointer, Opcode_GetVarImm, Opcode_SetVarImm:
 		_, ok := i.(OneIntInstruction)
 		return ok
+	case Opcode_Jump, Opcode_JumpIfFalse:
+		// jump targets are instruction indices
+		j, ok := i.(OneIntInstruction)
+		return ok && j.Value >= 0
 	case Opcode_Copy_Push, Opcode_Cloning_Push:
 		v, ok := i.(ValueInstruction)
 		return ok && v.Value != nil
@@ -26,8 +30,8 @@ func VInstrWF(i Instruction) bool {
 		_, ok := i.(TwoStringInstruction)
 		return ok
 	case Opcode_SetTryLabel:
-		_, ok := i.(OneIntOneStringInstruction)
-		return ok
+		t, ok := i.(OneIntOneStringInstruction)
+		return ok && t.ValueInt >= 0
 	case Opcode_Cast:
 		c, ok := i.(CastInstruction)
 		return ok && c.Type != nil
